@@ -59,6 +59,20 @@ def main(argv):
         from harness import fam
         fam.pool()
         mod.run(rep, info, model, tier, seed)
+        # the code under /repo is not the code the checks were calibrated on: search more (other random scenarios)
+        try:
+            sys.path.insert(0, os.path.join(os.path.dirname(os.path.abspath(__file__)), "tools"))
+            import fingerprint
+            diff = fingerprint.changed(core.REPO)
+        except Exception:
+            diff = []
+        if diff:
+            rep.notes.append("functions whose structure differs from the recorded fingerprints: %s" % ", ".join(diff[:12]))
+            if tier == "quick" and not [v for v in rep.violations if not v.get("kf")]:
+                for extra in (1000, 2000):
+                    if [v for v in rep.violations if not v.get("kf")]:
+                        break
+                    mod.run(rep, info, model, tier, seed + extra)
     except Exception:
         tb = traceback.format_exc()
         print(tb)
